@@ -39,8 +39,14 @@ POOL = [
 JOINTS = ['exact', 'ulp', 'far']
 
 
-def mkseg(entry, start):
+# drawing regimes: the same words a thousand million times smaller, and at ordinary size a million units from the origin
+REGIMES = {'tiny': (1e-9, 0j), 'tinier': (1e-12, 0j), 'far': (1.0, 1.0e6 + 1.0e6j), 'huge': (1e9, 0j)}
+
+
+def mkseg(entry, start, sc=1.0):
     name, k, o = entry
+    if sc != 1.0:
+        o = [x * sc if isinstance(x, complex) and not (k == 'A' and i_ in (1,)) else x for i_, x in enumerate(o)]
     if k == 'L':
         return Line(start, start + o[0])
     if k == 'Q':
@@ -50,9 +56,10 @@ def mkseg(entry, start):
     return Arc(start, o[0], o[1], o[2], o[3], start + o[4])
 
 
-def build(word, joints):
+def build(word, joints, regime=None):
     segs = []
-    pen = 0.5 + 0.25j
+    sc, sh = REGIMES[regime] if regime else (1.0, 0j)
+    pen = (0.5 + 0.25j) * sc + sh
     for i, idx in enumerate(word):
         if i == 0:
             start = pen
@@ -63,8 +70,8 @@ def build(word, joints):
             elif j == 'ulp':
                 start = complex(math.nextafter(pen.real, math.inf), pen.imag)
             else:
-                start = pen + (7 - 3j)
-        s = mkseg(POOL[idx], start)
+                start = pen + (7 - 3j) * sc
+        s = mkseg(POOL[idx], start, sc)
         segs.append(s)
         pen = s.end
     return segs
@@ -202,6 +209,30 @@ def check_path(segs, case, acc, Ts=None, pair_max_n=3, path_obj=None):
     acc.seen('joints:' + ('none' if n == 1 else ('all' if cont else ('some' if any(joins) else 'no'))))
 
 
+def repeated_paths():
+    """paths in which a segment occurs more than once BY VALUE (a stroke drawn forth, back and forth again; the same
+    stroke twice in a row, i.e. with a jump back; one segment OBJECT at two positions): anything that finds a
+    segment's position by searching for an equal one lands on the first occurrence"""
+    for idx in range(len(POOL) - 1):
+        for regime in (None, 'tiny'):
+            a = build((idx,), (), regime)[0]
+            b = a.reversed()
+            yield 'forth_back_forth', idx, regime, [a, b, AB.fresh_copy(a)]
+            yield 'twice_with_jump', idx, regime, [a, AB.fresh_copy(a)]
+            yield 'same_object_twice', idx, regime, [a, b, a]
+            other = build((0, idx), ('exact',), regime)
+            yield 'lead_in_then_twice', idx, regime, [other[0], other[1], other[1].reversed(), AB.fresh_copy(other[1])]
+
+
+def check_repeated(acc, only=None):
+    for kind, idx, regime, segs in repeated_paths():
+        case = {'what': 'repeated', 'kind': kind, 'idx': idx, 'regime': regime}
+        if only is not None and only != case:
+            continue
+        acc.seen('repeated_segments')
+        check_path(segs, case, acc, pair_max_n=0)
+
+
 def check_after_arc_approximation(word, how, acc):
     """a path with arcs answers T2t / point / length, has its arcs replaced IN PLACE by Bezier curves
     (Path.approximate_arcs_with_cubics / _quads), and must then be coherent for its NEW segments"""
@@ -237,7 +268,9 @@ def words(n):
 def shards(tier, seed):
     tp = tier_params(tier, seed)
     out = [{'what': 'words', 'first': i, 'second': j} for i in range(len(POOL) - 1) for j in range(-1, len(POOL))]
+    out += [{'what': 'words', 'first': i, 'second': j, 'regime': r} for i in range(len(POOL) - 1) for j in range(-1, len(POOL)) for r in REGIMES]
     out.append({'what': 'equal'})
+    out.append({'what': 'repeated'})
     out.append({'what': 'arc_approximation'})
     out += AB.provenance_shards(out, tier, lambda d: d['what'] == 'words', key='pprov')
     return out
@@ -266,14 +299,22 @@ def run_shard(desc, tier, seed):
         return acc
     # (words of the full length on plain paths; one segment shorter on paths with a history: 14 histories x 8^5 words
     #  would cost an hour for no new joint patterns)
-    for w in words(tp['n'] if not desc.get('pprov') else min(tp['n'], 4)):
+    if desc['what'] == 'repeated':
+        check_repeated(acc)
+        return acc
+    regime = desc.get('regime')
+    for w in words((tp['n'] if not desc.get('pprov') else min(tp['n'], 4)) if not regime else 3):
         if w[0] != desc['first']:
             continue
         if (w[1] if len(w) > 1 else -1) != desc['second']:
             continue
         for joints in itertools.product(JOINTS, repeat=len(w) - 1):
-            segs = build(w, joints)
-            check_path(segs, {'what': 'word', 'word': list(w), 'joints': list(joints)}, acc)
+            segs = build(w, joints, regime)
+            case = {'what': 'word', 'word': list(w), 'joints': list(joints)}
+            if regime:
+                case['regime'] = regime
+                acc.seen('regime:' + regime)
+            check_path(segs, case, acc, pair_max_n=3 if not regime else 0)
     return acc
 
 
@@ -299,6 +340,11 @@ def replay(case):
         if T is not None:
             acc.vlist = [v for v in acc.vlist if v['case'].get('T') == T]
         return acc.vlist
+    if c['what'] == 'repeated':
+        check_repeated(acc, only={k: v for k, v in c.items() if k in ('what', 'kind', 'idx', 'regime')})
+        if T is not None:
+            acc.vlist = [v for v in acc.vlist if v['case'].get('T') == T]
+        return acc.vlist
     if c['what'] == 'equal':
         d = complex(*c['d'])
         segs = []
@@ -307,7 +353,7 @@ def replay(case):
             segs.append(Line(pen, pen + d))
             pen = segs[-1].end
     else:
-        segs = build(tuple(c['word']), tuple(c['joints']))
+        segs = build(tuple(c['word']), tuple(c['joints']), c.get('regime'))
     prev = c.pop('previous_T', None)
     if prev is not None:
         check_path(segs, c, acc, Ts=None)
